@@ -4,6 +4,8 @@
 import json, os, shutil, sys
 prop, n, det, note = sys.argv[1:5]
 src = "/tmp/seed-%s/SEED/%s" % (prop, n)
+if not os.path.isdir(src):
+    src = "/verif/seeded/_incoming/%s-%s" % (prop, n)
 dst = "/verif/seeded/%s-%s" % (prop, n)
 os.makedirs(dst, exist_ok=True)
 for f in os.listdir(src):
